@@ -11,10 +11,20 @@ package httpserver
 
 import (
 	"net/http"
+	"strings"
 
 	"github.com/julienschmidt/httprouter"
 	"github.com/spf13/viper"
 )
+
+// moduleConfigured reports whether name is one of the configured modules of the given kind. The name comes from the
+// request path, so it must not reach viper as part of a key unless it is a module name: viper follows the dots of a key
+// into nested settings and list indexes, so a request for the cluster "c.servers.0" would be answered as if it named a
+// cluster, and "c.servers.-1" would index a list out of range.
+func moduleConfigured(kind, name string) bool {
+	_, ok := viper.GetStringMap(kind)[strings.ToLower(name)]
+	return ok
+}
 
 func (hc *Coordinator) configMain(w http.ResponseWriter, r *http.Request, _ httprouter.Params) {
 	// Build JSON structs for config
@@ -129,7 +139,7 @@ func (hc *Coordinator) configNotifierList(w http.ResponseWriter, r *http.Request
 
 func (hc *Coordinator) configStorageDetail(w http.ResponseWriter, r *http.Request, params httprouter.Params) {
 	configRoot := "storage." + params.ByName("name")
-	if !viper.IsSet(configRoot) {
+	if !moduleConfigured("storage", params.ByName("name")) {
 		hc.writeErrorResponse(w, r, http.StatusNotFound, "storage module not found")
 	} else {
 		requestInfo := makeRequestInfo(r)
@@ -150,7 +160,7 @@ func (hc *Coordinator) configStorageDetail(w http.ResponseWriter, r *http.Reques
 
 func (hc *Coordinator) configConsumerDetail(w http.ResponseWriter, r *http.Request, params httprouter.Params) {
 	configRoot := "consumer." + params.ByName("name")
-	if !viper.IsSet(configRoot) {
+	if !moduleConfigured("consumer", params.ByName("name")) {
 		hc.writeErrorResponse(w, r, http.StatusNotFound, "consumer module not found")
 	} else {
 		requestInfo := makeRequestInfo(r)
@@ -175,7 +185,7 @@ func (hc *Coordinator) configConsumerDetail(w http.ResponseWriter, r *http.Reque
 
 func (hc *Coordinator) configEvaluatorDetail(w http.ResponseWriter, r *http.Request, params httprouter.Params) {
 	configRoot := "evaluator." + params.ByName("name")
-	if !viper.IsSet(configRoot) {
+	if !moduleConfigured("evaluator", params.ByName("name")) {
 		hc.writeErrorResponse(w, r, http.StatusNotFound, "evaluator module not found")
 	} else {
 		requestInfo := makeRequestInfo(r)
@@ -291,7 +301,7 @@ func (hc *Coordinator) configNotifierNull(w http.ResponseWriter, r *http.Request
 
 func (hc *Coordinator) configNotifierDetail(w http.ResponseWriter, r *http.Request, params httprouter.Params) {
 	configRoot := "notifier." + params.ByName("name")
-	if !viper.IsSet(configRoot) {
+	if !moduleConfigured("notifier", params.ByName("name")) {
 		hc.writeErrorResponse(w, r, http.StatusNotFound, "notifier module not found")
 	} else {
 		// Return the right profile structure
